@@ -67,6 +67,23 @@ let () =
         | Some Dispatch.TBuiltinInfo -> "B"
         | Some (Dispatch.TUser h) -> Printf.sprintf "H%d" (int_of_nat h) in
       report_case ln ~expected:(String.concat "," (List.map one (split_on ',' ns))) ~got:obs
+    | ["R"; b; t; n; _lit; obs] ->
+      (* the method was sent as the JSON literal _lit, which decodes to n (decoded by the harness with
+         encoding/json): dispatch is that of the decoded name *)
+      let exp = match Dispatch.server_assign (b = "1") (parse_tree t) (bytes_of_hexfield n) with
+        | None -> "N"
+        | Some Dispatch.TBuiltinInfo -> "B"
+        | Some (Dispatch.TUser h) -> Printf.sprintf "H%d" (int_of_nat h) in
+      report_case ln ~expected:exp ~got:obs
+    | ["J"; t; n; obs] ->
+      (* rpc.serverInfo before and after a method is added to the (Map) assigner *)
+      let tree = parse_tree t in
+      let added = (match tree with
+        | Dispatch.AMap es ->
+          let nb = bytes_of_hexfield n in
+          if List.exists (fun (k, _) -> k = nb) es then Dispatch.AMap es else Dispatch.AMap (es @ [(nb, nat_of_int 999)])
+        | x -> x) in
+      report_case ln ~expected:(show_names (Dispatch.info_methods tree) ^ "|" ^ show_names (Dispatch.info_methods added)) ~got:obs
     | ["M"; t; obs] ->
       let exp = match Dispatch.names (parse_tree t) with
         | None -> "none"
